@@ -672,3 +672,54 @@ Proof.
   intros s. destruct (spells_derives _ _ _ _ s) as [ts' [Hd Hder]]. exists ts'. split; [exact Hd|].
   eapply (lift_to inf Expression ts' t (fun _ => true)); [exact lf_expression|eapply spells_lvl_in; exact s|reflexivity|exact Hder].
 Qed.
+
+(* ---- the [In] parameter is vacuous below RelationalExpression ------------------------------------------------------ *)
+
+(* nonterminals that have no [In] parameter in the standard *)
+Definition tight (n : nt) : bool :=
+  match n with
+  | Shift | Additive | Multiplicative | Exponentiation | Unary | Update | LHS | Call | Member | Primary => true
+  | _ => false
+  end.
+
+Lemma derives_in_mono :
+  (forall inf n ts t (d : derives inf n ts t), derives true n ts t) /\
+  (forall ats args (d : arguments ats args), arguments ats args).
+Proof.
+  apply (derives_arguments_ind (fun _ n ts t _ => derives true n ts t) (fun ats args _ => arguments ats args));
+    intros; eauto using derives, arguments.
+Qed.
+
+Lemma derives_in_vacuous_all :
+  (forall inf n ts t (d : derives inf n ts t), tight n = true -> forall inf', derives inf' n ts t) /\
+  (forall ats args (d : arguments ats args), True).
+Proof.
+  apply (derives_arguments_ind (fun _ n ts t _ => tight n = true -> forall inf', derives inf' n ts t) (fun _ _ _ => True));
+    intros; try exact I; try discriminate.
+  - (* chain *)
+    assert (Hb : tight b = true).
+    { unfold chain_prods in i. cbn [In] in i.
+      repeat (destruct i as [i|i]; [inversion i; subst; try discriminate; reflexivity|]). contradiction. }
+    eapply D_chain; eauto.
+  - apply D_ident; assumption.
+  - apply D_literal; assumption.
+  - apply D_paren; assumption.
+  - apply D_member_index; auto.
+  - apply D_member_dot; auto.
+  - eapply D_call_member; eauto.
+  - eapply D_call_call; eauto.
+  - apply D_call_index; auto.
+  - apply D_call_dot; auto.
+  - eapply D_postfix; eauto.
+  - eapply D_prefix_update; eauto.
+  - eapply D_unary; eauto.
+  - (* binary productions of tight nonterminals have tight operands *)
+    assert (Hlr : tight l = true /\ tight r = true).
+    { unfold binary_prods in i. cbn [In] in i.
+      repeat (destruct i as [i|i]; [inversion i; subst; try discriminate; split; reflexivity|]). contradiction. }
+    destruct Hlr as [Hl Hr]. eapply D_binary; eauto.
+Qed.
+
+(* ShiftExpression and tighter nonterminals derive the same with and without [In] *)
+Theorem derives_in_vacuous inf inf' n ts t : tight n = true -> derives inf n ts t -> derives inf' n ts t.
+Proof. intros Ht d. exact (proj1 derives_in_vacuous_all inf n ts t d Ht inf'). Qed.
